@@ -108,3 +108,39 @@ Print Assumptions C11_source_entry.
 Print Assumptions C11_source_exit.
 Print Assumptions C11_model_assembled_from_source_parts.
 Print Assumptions C11_source_frames.
+
+(* ---------- the loop of alloc_slice_try_fill_with as /repo's source has it (translated by
+   tools/rs2v.py on every run into LeafActual.src_procs; FillWalkOk.v).  The closure's answers come
+   from a script: Some true = Ok(el), Some false = Err(e), None = it panics.  For every length,
+   destination, block and script the translated loop is the function tyrun; when the first Err is
+   the (k+1)-th answer, indices 0..k-1 were asked in order and stored, index k was asked, then the
+   WHOLE block goes back in one dealloc(base_ptr, layout) and the function returns at once: the
+   closure is not asked again and nothing more is stored ---------- *)
+From BV Require Import DedupWalkOk TruncWalkOk FillWalkOk.
+From Coq Require Import List.
+Import ListNotations.
+Theorem C11_source_try_fill_loop : forall len dst bp lay tr sc f, dst + len < W ->
+  (N.to_nat len <= List.length sc)%nat ->
+  let '(t, q, b, rest) := tyrun dst bp lay (N.to_nat len) 0 sc in
+  exec src_fns (S (S (S (S (S (S f)))))) (tyenv0 len dst bp lay) tr sc tryloop =
+  match b with
+  | FDone => XOk (tyenv len dst bp lay q) (List.app tr t) rest
+  | FPanic => XPanic (tyenv len dst bp lay q) (List.app tr t)
+  | FErr => XRet (tyenv len dst bp lay q) (List.app tr t) rest
+  end.
+Proof. exact loop_is_tyrun. Qed.
+
+Theorem C11_try_fill_error_releases_block_and_stops : forall k j dst bp lay i sc,
+  (k < j)%nat -> forallb says_ok (firstn k sc) = true -> nth k sc None = Some false ->
+  tyrun dst bp lay j i sc
+  = (List.app (filled dst k i) [e_ask (i + N.of_nat k); e_dealloc bp lay], i + N.of_nat k, FErr, skipn (S k) sc).
+Proof. exact tyrun_err_at. Qed.
+
+Theorem C11_try_fill_all_ok_fills_in_order : forall j dst bp lay i sc,
+  (j <= List.length sc)%nat -> forallb says_ok (firstn j sc) = true ->
+  tyrun dst bp lay j i sc = (filled dst j i, i + N.of_nat j, FDone, skipn j sc).
+Proof. exact tyrun_all_ok. Qed.
+
+Print Assumptions C11_source_try_fill_loop.
+Print Assumptions C11_try_fill_error_releases_block_and_stops.
+Print Assumptions C11_try_fill_all_ok_fills_in_order.
